@@ -37,7 +37,10 @@ def body_factory(tier, seed):
             sreq, sresp = GD.snake(req), GD.snake(resp)
             try:
                 obj = N.make_request(version, action, sreq, False)
-            except TypeError:
+            except TypeError as e:
+                rep.violation("C19:unbuildable:%s:%s" % (version, action),
+                              "the keywords a handler receives for a schema-valid %s request cannot be put into call.%s: %s" % (action, action, e),
+                              {"kind": "relay", "version": version, "action": action, "request": req, "response": resp})
                 continue
             res = N.run_relay(version, action, obj, lambda kw, _v=version, _a=action, _s=sresp: N.make_result(_v, _a, _s, False))
             rep.count(json.dumps([version, action, req, resp], default=repr, sort_keys=True))
